@@ -20,14 +20,14 @@ RULE = ('Generated transaction descriptions (1-6 tokens from a merchant-like voc
         'Non-trivial = description with >=2 words or >=1 regex metacharacter; distinct by the description.')
 ASSUMPTIONS = ['descriptions are as the parser delivers them: stripped, non-empty, single-line',
                'letters are ASCII; non-ASCII characters are uncased (the suggestion upper-cases the description)']
-REQUIRED_CLASSES = ['metachar', 'multiword', 'store_number_mid', 'prefix', 'quote_or_backslash', 'budget_end_to_end']
+REQUIRED_CLASSES = ['metachar', 'multiword', 'store_number_mid', 'store_number_glued', 'prefix', 'quote_or_backslash', 'budget_end_to_end']
 
 WORDS = ['STARBUCKS', 'Netflix.com', 'UBER', 'EATS', 'AMZN', 'Mktp', 'US*1A2B3', 'WHOLEFDS', 'TRADER', "JOE'S", 'SHELL', 'OIL', 'COSTCO', 'WHSE', 'THE', 'HOME', 'DEPOT',
          'McDonald\'s', 'F12345', 'C++', 'A.B.', '(PARKING)', '[GARAGE]', 'R&D', '50%', 'PAY$', '^TOP', 'a|b', 'q?', '{x}', 'ab{2}', 'back\\slash', 'say"hi"', "it's", '日本', '☕',
          'café'.replace('é', 'e'), 'T-MOBILE', 'AT&T', '7-ELEVEN', 'H&M', 'E*TRADE', '24', 'PAYMENT', 'THANK', 'YOU']
-SUFFIXES = ['', '', ' #1234', ' 00012345', ' WA', ' CA', ' 98101', ' SEATTLE WA', ' #12 SEATTLE WA', ' 1234567 800-555-1212 WA', ' DES:PAYROLL ID:99', ' ny']
+SUFFIXES = ['', '', ' #1234', ' 00012345', ' WA', ' CA', ' 98101', ' SEATTLE WA', ' #12 SEATTLE WA', ' 1234567 800-555-1212 WA', ' DES:PAYROLL ID:99', ' ny', ' #4712A SEATTLE WA', ' #12-B']
 PREFIXES = ['', '', '', 'APLPAY ', 'SQ *', 'TST* ', 'TST*', 'SP ', 'PP*', 'GOOGLE *', 'sq *', 'Aplpay ']
-SEPS = [' ', ' ', ' ', '  ', '   ', ' - ', '*', ' #77 ']
+SEPS = [' ', ' ', ' ', '  ', '   ', ' - ', '*', ' #77 ', ' #4712A ', ' #12-B ', ' #1234/', ' #9', '#5 ']
 
 
 @st.composite
@@ -71,6 +71,8 @@ def classify(d):
         cl.add('multiword')
     if re.search(r'\s#\d+\s+\S', d):
         cl.add('store_number_mid')
+    if re.search(r'\s#\d+[^\s\d]', d):
+        cl.add('store_number_glued')
     if any(d.upper().startswith(p.upper()) for p in PREFIXES if p):
         cl.add('prefix')
     if '"' in d or '\\' in d:
